@@ -15,11 +15,14 @@ import json
 SUFFIX = "._mapper"
 TOP_KEYS = ["a", "b", "c", "d", "e"]
 SUB_KEYS = ["x", "y", "z", "a"]
-FN_ARITY = {"ident": 1, "addOne": 1, "upper": 1, "wrap": 1, "concat": 2, "pair": 2}
 
 
-# ---------------------------------------------------------------- the fixed family of pure transforms
-# (identical to `applyFn` in lean/TypedpyModel/Sem/Convert.lean)
+# ---------------------------------------------------------------- user functions of FunctionCall
+# The Lean model carries an ARBITRARY function `List Json -> R Json` per entry; on a run the driver gets the function
+# as the table of calls observed on the real code (plus the calls the documented step contract asks about, evaluated
+# here on the very same pure Python function).  The family below is just a varied sample of user functions: total
+# and partial ones, raising ones, float-producing ones, order-insensitive container functions and "random" functions
+# (a seeded hash of the canonical arguments picks the outcome, any arity).
 
 def f_ident(x):
     return x
@@ -51,8 +54,148 @@ def f_pair(x, y):
     return [x, y]
 
 
+def f_half(x):
+    return x / 2 if type(x) in (int, float) else x
+
+
+def f_recip(x):
+    return 1 / x            # ZeroDivisionError on 0 / False, TypeError on str / None / containers
+
+
+def f_strict(x):
+    if x is None:
+        raise ValueError("value required")
+    return x
+
+
+def f_size(x):
+    return len(x)           # TypeError on numbers / None
+
+
+def f_keys(x):
+    return sorted(x) if type(x) is dict else None
+
+
+def f_lookup(x, y):
+    return x[y]             # KeyError / IndexError / TypeError
+
+
+_POOL = [None, 0, 1, -3, 2.5, "", "q", True, [], [1, "s"], {"x": 1}, {"x": [None], "y": {"z": 0.5}},
+         ("raise", "ValueError"), ("raise", "KeyError"), ("raise", "RuntimeError")]
+
+
+def _hashed(name):
+    import hashlib
+
+    def h(*a):
+        d = hashlib.sha256((name + "|" + canon(list(a))).encode()).digest()
+        r = _POOL[d[0] % len(_POOL)]
+        if isinstance(r, tuple):
+            raise {"ValueError": ValueError, "KeyError": KeyError, "RuntimeError": RuntimeError}[r[1]](name)
+        return copy.deepcopy(r)
+    h.__name__ = name
+    return h
+
+
 FUNCS = {"ident": f_ident, "addOne": f_addOne, "upper": f_upper, "wrap": f_wrap, "concat": f_concat,
-         "pair": f_pair}
+         "pair": f_pair, "half": f_half, "recip": f_recip, "strict": f_strict, "size": f_size, "keys": f_keys,
+         "lookup": f_lookup, "h0": _hashed("h0"), "h1": _hashed("h1"), "h2": _hashed("h2")}
+FN_ARITY = {"ident": 1, "addOne": 1, "upper": 1, "wrap": 1, "concat": 2, "pair": 2, "half": 1, "recip": 1, "strict": 1,
+            "size": 1, "keys": 1, "lookup": 2, "h0": 1, "h1": 1, "h2": 2}
+
+
+class Recorder:
+    """wraps the user functions of one case: every call (arguments -> outcome) is recorded"""
+
+    def __init__(self):
+        self.rows = {}          # name -> {canon(args): (args copy, outcome)}
+        self.raised = []        # (name, args, exception class) of every call that raised, in order
+
+    def wrap(self, name):
+        f = FUNCS[name]
+        rows = self.rows.setdefault(name, {})
+
+        def w(*a):
+            key = canon(list(a))
+            args = copy.deepcopy(list(a))
+            try:
+                r = f(*a)
+            except Exception as e:   # noqa: BLE001
+                rows.setdefault(key, (args, {"err": type(e).__name__}))
+                self.raised.append([name, args, type(e).__name__])
+                raise
+            rows.setdefault(key, (args, {"ok": enc(copy.deepcopy(r))} if is_json(r) else {"err": "NotJson"}))
+            return r
+        w.__name__ = name
+        return w
+
+    def ask(self, name, args):
+        """evaluate the pure function on arguments the real code may not have used (contract questions)"""
+        rows = self.rows.setdefault(name, {})
+        key = canon(list(args))
+        if key in rows:
+            return
+        try:
+            r = FUNCS[name](*copy.deepcopy(list(args)))
+            rows[key] = (copy.deepcopy(list(args)), {"ok": enc(r)} if is_json(r) else {"err": "NotJson"})
+        except Exception as e:   # noqa: BLE001
+            rows[key] = (copy.deepcopy(list(args)), {"err": type(e).__name__})
+
+    def wire(self):
+        return {name: [[[enc(x) for x in args], out] for args, out in rows.values()]
+                for name, rows in self.rows.items()}
+
+
+def values_by_key(v, acc):
+    """every value found under a key, at any depth: key -> {canon: value}"""
+    if isinstance(v, dict):
+        for k, x in v.items():
+            acc.setdefault(k, {}).setdefault(canon(x), x)
+            values_by_key(x, acc)
+    elif isinstance(v, list):
+        for x in v:
+            values_by_key(x, acc)
+    return acc
+
+
+def const_values(ms_wire, acc):
+    for m in ms_wire:
+        for k, e in m:
+            if "const" in e:
+                v = dec(e["const"])
+                acc.setdefault(k, {}).setdefault(canon(v), v)
+            elif "sub" in e:
+                const_values([e["sub"]], acc)
+    return acc
+
+
+def fn_entries(ms_wire, out=None):
+    out = [] if out is None else out
+    for m in ms_wire:
+        for k, e in m:
+            if "fn" in e:
+                out.append((k, e))
+            elif "sub" in e:
+                fn_entries([e["sub"]], out)
+    return out
+
+
+def close_tables(rec, case, docs):
+    """add to the recorded tables the calls the step contract can ask about: for every FunctionCall entry, the function
+    on every combination of values that any of the documents (input, every real intermediate state) or a Constant of
+    the history holds under the argument keys (bounded)"""
+    import itertools
+    cand = {}
+    for d in docs:
+        values_by_key(d, cand)
+    const_values(case["ms"], cand)
+    for k, e in fn_entries(case["ms"]):
+        names = e.get("args") or [k]
+        pools = [[None] + list(cand.get(x, {}).values()) for x in names]
+        for n, combo in enumerate(itertools.product(*pools)):
+            if n >= 160:
+                break
+            rec.ask(e["fn"], list(combo))
 
 
 # ---------------------------------------------------------------- wire encoding
@@ -64,11 +207,16 @@ def enc(v, sort=False):
         return {"o": [[k, enc(x, sort)] for k, x in items]}
     if isinstance(v, (list, tuple)):
         return [enc(x, sort) for x in v]
+    if type(v) is float:
+        n, d = v.as_integer_ratio()
+        return {"f": [n, d]}
     return v
 
 
 def dec(w):
     if isinstance(w, dict):
+        if "f" in w:
+            return w["f"][0] / w["f"][1]
         return {k: dec(x) for k, x in w["o"]}
     if isinstance(w, list):
         return [dec(x) for x in w]
@@ -83,6 +231,8 @@ def canon(v):
 def is_json(v):
     if v is None or type(v) in (bool, int, str):
         return True
+    if type(v) is float:
+        return v == v and v not in (float("inf"), float("-inf")) and not (v == 0 and str(v)[0] == "-")
     if type(v) is list:
         return all(is_json(x) for x in v)
     if type(v) is dict:
@@ -99,7 +249,8 @@ class Gen:
 
     def scalar(self):
         r = self.rng
-        return r.choice([0, 1, 2, -1, 7, 41, "", "s", "ab", "x", "y", "xy", "a.b", True, False, None, 3, "Zz"])
+        return r.choice([0, 1, 2, -1, 7, 41, "", "s", "ab", "x", "y", "xy", "a.b", True, False, None, 3, "Zz", 0.5, 2.0,
+                         -1.25, 0.0])
 
     def subdoc(self, depth):
         r = self.rng
@@ -186,7 +337,8 @@ class Gen:
             return key + SUFFIX, {"sub": self.mapping(True, depth - 1)}
         name = r.choice(list(FN_ARITY))
         q = r.random()
-        keys = SUB_KEYS if nested else TOP_KEYS
+        # a top-level FunctionCall may read `version` (the caller's bookkeeping, rewritten after every step)
+        keys = SUB_KEYS if nested else (TOP_KEYS + ["version"] if r.random() < 0.15 else TOP_KEYS)
         if q < 0.35 and FN_ARITY[name] == 1:
             args = None
         elif q < (0.4 if FN_ARITY[name] == 1 else 0.04):
@@ -230,23 +382,27 @@ class Gen:
         elif p < 0.96:
             ver = r.choice([0, -1, -2, -n - 3])
         else:
-            ver = r.choice(["1", None, True, False, [1], {"v": 1}])
+            ver = r.choice(["1", None, True, False, [1], {"v": 1}, 1.0, 2.5])
         if ver != "absent":
             # the position of the key is part of the document
             items = list(doc.items())
             items.insert(r.randint(0, len(items)), ("version", ver))
             doc = dict(items)
         ftypes = {}
+        trusted = r.random() < 0.2
+        # direct_trusted_mapping takes its shortcut (from_trusted_data, no constructor) only for classes whose fields
+        # are all "simple": in most trusted cases no field is an Anything
+        all_typed = trusted and r.random() < 0.7
         # in about half of the cases some of the keys the history works on are NOT fields of the class
         undeclared_p = 0.45 if r.random() < 0.5 else 0.0
         for k in TOP_KEYS:
             q = r.random()
             if r.random() < undeclared_p:
                 ftypes[k] = "undeclared"
-            elif q < 0.8:
+            elif q < 0.8 and not all_typed:
                 ftypes[k] = "any"
             else:
-                ftypes[k] = {"a": "int", "b": "str", "c": "sub", "d": "subs"}.get(k, "any")
+                ftypes[k] = {"a": "int", "b": "str", "c": "sub", "d": "subs"}.get(k, "int" if all_typed else "any")
         keep = r.choice([None, None, True, True, True, False, False])      # keep_undefined: default / True / False
         addl = r.choice([None, None, True, False, False])                  # _additional_properties: unset / True / False
         sub_undeclared = r.random() < 0.3                                  # nested class does not declare key "a"
@@ -258,8 +414,8 @@ class Gen:
         if r.random() < 0.3:
             kw["version"] = r.choice([1, n + 1, n + 5, 0])
         return {"ms": ms, "doc": enc(doc), "splits": list(range(0, n + 1)) + ([n + 2] if r.random() < 0.1 else []),
-                "ftypes": ftypes, "hasAttr": has_attr, "kw": enc(kw), "trusted": r.random() < 0.2,
-                "keep": keep, "addl": addl, "subUndeclared": sub_undeclared}
+                "ftypes": ftypes, "hasAttr": has_attr, "kw": enc(kw), "trusted": trusted,
+                "keep": keep, "addl": addl, "subUndeclared": sub_undeclared, "subTyped": all_typed}
 
 
 def gen_cases(rng, tier, n):
@@ -269,8 +425,9 @@ def gen_cases(rng, tier, n):
 
 # ---------------------------------------------------------------- building the real objects
 
-def build_mapping(wire):
+def build_mapping(wire, rec=None):
     from typedpy import Constant, Deleted, FunctionCall
+    fn = rec.wrap if rec is not None else FUNCS.get
     m = {}
     for k, e in wire:
         if "const" in e:
@@ -280,12 +437,12 @@ def build_mapping(wire):
         elif "move" in e:
             m[k] = e["move"]
         elif "sub" in e:
-            m[k] = build_mapping(e["sub"])
+            m[k] = build_mapping(e["sub"], rec)
         elif "fn" in e:
             if e.get("args") is None:
-                m[k] = FunctionCall(func=FUNCS[e["fn"]])
+                m[k] = FunctionCall(func=fn(e["fn"]))
             else:
-                m[k] = FunctionCall(func=FUNCS[e["fn"]], args=list(e["args"]))
+                m[k] = FunctionCall(func=fn(e["fn"]), args=list(e["args"]))
         else:
             raise ValueError(f"entry {e}")
     return m
@@ -363,9 +520,13 @@ def sorted_res(res):
 def make_classes(case, ms_objs):
     from typedpy import Anything, Array, Integer, PositiveInt, String, Structure, Versioned
 
-    sub_ns = {"x": Anything, "y": Anything, "z": Anything, "_required": []}
+    if case.get("subTyped"):
+        sub_ns = {"x": Integer, "y": String, "z": Integer, "_required": []}
+    else:
+        sub_ns = {"x": Anything, "y": Anything, "z": Anything, "_required": []}
     if not case.get("subUndeclared"):
-        sub_ns["a"] = Anything          # otherwise key "a" of sub-documents is an undeclared (additional) property
+        # otherwise key "a" of sub-documents is an undeclared (additional) property
+        sub_ns["a"] = String if case.get("subTyped") else Anything
     Sub = type("Sub", (Structure,), sub_ns)
 
     def field(t):
@@ -397,7 +558,7 @@ def dump_instance(x):
         return {str(k): dump_instance(v) for k, v in x.items()}
     if isinstance(x, (list, tuple)):
         return [dump_instance(v) for v in x]
-    if x is None or type(x) in (bool, int, str):
+    if x is None or type(x) in (bool, int, str, float):
         return x
     return repr(x)
 
@@ -416,9 +577,16 @@ def deser_outcome(cls, doc, case):
     try:
         inst = Deserializer(cls).deserialize(doc, **flags)
     except Exception as e:   # noqa: BLE001
-        return None, {"err": err_name(e), "msg": str(e)[:200]}
+        from . import construct as C
+        return None, {"err": err_name(e), "errc": C.err_name(e), "msg": str(e)[:200]}
     d = dump_instance(inst)
     out = {"ok": canon(d)}
+    try:
+        from .. import dump
+        from . import construct as C
+        out["inst"] = dump.dump_value(inst, C.make_ctx())
+    except Exception as e:   # noqa: BLE001
+        out["inst_undumpable"] = f"{type(e).__name__}: {e}"
     if isinstance(d, dict) and "$" in d:
         out["version"] = d["$"].get("version")
         out["okNoVersion"] = canon({"$": {k: v for k, v in d["$"].items() if k != "version"}})
@@ -429,8 +597,20 @@ def deser_outcome(cls, doc, case):
 
 
 def run_impl(case):
+    rec = Recorder()
+    res = _run(case, rec)
+    docs = [dec(case["doc"])]
+    for r in [res.get("full")] + [st["s1"] for st in res.get("stages", [])]:
+        if r is not None and "ok" in r:
+            docs.append(dec(r["ok"]))
+    close_tables(rec, case, docs)
+    res["fns"] = rec.wire()
+    return res
+
+
+def _run(case, rec):
     from typedpy import convert_dict
-    ms = [build_mapping(m) for m in case["ms"]]
+    ms = [build_mapping(m, rec) for m in case["ms"]]
     doc = dec(case["doc"])
     snap_ms0 = json.dumps([snap_mapping(m) for m in ms])
     snap_doc0 = snap_doc(doc)
@@ -455,7 +635,10 @@ def run_impl(case):
             res["alias"].append(["constant-value", site])
 
     # --- at once
+    n_raised = len(rec.raised)
     full_obj, res["full"] = outcome(lambda: convert_dict(doc, ms))
+    if "ok" in res["full"] and len(rec.raised) > n_raised:
+        res["swallowed"] = rec.raised[n_raised]
     check_snap("convert_dict")
     check_alias(full_obj, "convert_dict")
     res["full_is_input"] = full_obj is doc
@@ -492,6 +675,15 @@ def run_impl(case):
         return res
     _, res["deser_old"] = deser_outcome(V, doc, case)
     check_snap("deserialize(document)")
+    if True:
+        try:
+            from .. import dump
+            from . import construct as C
+            ctx = C.make_ctx()
+            res["cls"] = dump.dump_class(V, ctx)
+            res["plainCls"] = dump.dump_class(P, ctx)
+        except Exception as e:   # noqa: BLE001
+            res["cls_undumpable"] = f"{type(e).__name__}: {e}"
     if "ok" in res["full"]:
         conv = copy.deepcopy(full_obj)
         _, res["deser_new"] = deser_outcome(V, conv, case)
@@ -512,7 +704,11 @@ def run_impl(case):
 def line(case, impl):
     l = {"suite": "convert", "doc": case["doc"], "ms": case["ms"], "splits": case["splits"],
          "hasAttr": case["hasAttr"], "kw": case["kw"], "fields": declared_fields(case), "keep": case.get("keep"),
-         "addl": True if case.get("addl") is None else case["addl"]}
+         "addl": True if case.get("addl") is None else case["addl"], "fns": impl.get("fns", {})}
+    if "cls" in impl:
+        l["cls"] = impl["cls"]
+        l["plainCls"] = impl["plainCls"]
+        l["trusted"] = bool(case["trusted"])
     if "full" in impl:
         l["impl"] = {"full": sorted_res(impl["full"]), "again": sorted_res(impl["again"]),
                      "stages": [{"s1": sorted_res(s["s1"]), "s2": sorted_res(s["s2"])} for s in impl["stages"]]}
@@ -626,11 +822,44 @@ def correspondence(case, impl, model):
             return (f"deserialize(keep_undefined={case.get('keep')}, additional properties {case.get('addl')}): the "
                     f"instance keeps undeclared keys {d_old['extras'][:300]}, the model (undeclared keys of the "
                     f"converted document) says {canon(dec(m_ex['ok']))[:300]}")
+    # the whole path (Sem/ConvertDeser.lean): prologue + per-field pass + undeclared keys (nested classes too) +
+    # Versioned.__init__ + constructor validation, against the real instance / exception
+    m_w = model.get("deserWhole")
+    if m_w is not None and d_old is not None and "cls" in impl:
+        r = whole_diff("Deserializer(V).deserialize(document)", m_w, d_old)
+        if r:
+            return r
+        m_p, d_plain = model.get("deserPlainModel"), impl.get("deser_plain")
+        if m_p is not None and d_plain is not None:
+            r = whole_diff("Deserializer(plain latest class).deserialize(converted document)", m_p, d_plain)
+            if r:
+                return r
     init = impl.get("init")
     if init is not None and "ok" in init and init["ok"] != model["initVersion"]:
         return f"constructor: real version {init['ok']} model {model['initVersion']}"
     if model.get("upgradeAgrees") is False:
         return "model self-check: upgrade spec differs from convertDict"
+    return None
+
+
+def whole_diff(what, m, i):
+    """model outcome (wire result of Sem/ConvertDeser) vs the real outcome"""
+    from . import serde
+    if str(m.get("err", "")).startswith("outside-model"):
+        return None      # garbage documents the trusted-path model (Sem/Trusted.lean) declares outside its domain
+    if "ok" in m:
+        if "ok" not in i:
+            return f"{what}: model returns an instance, real code raises {i.get('err')}: {i.get('msg')}"
+        if "inst" not in i:
+            return None
+        if not serde._same(m["ok"], i["inst"]):
+            return (f"{what}: instances differ: model {json.dumps(m['ok'])[:300]} real {json.dumps(i['inst'])[:300]}")
+        return None
+    if "ok" in i:
+        return f"{what}: model raises {m['err']} ({m.get('stage', 'remainder')}), real code returned {i['ok'][:200]}"
+    want = i.get("err") if m.get("stage") == "prologue" else i.get("errc", i.get("err"))
+    if m["err"] != want:
+        return f"{what}: exception class differs: model {m['err']} ({m.get('stage', 'remainder')}), real {i.get('err')}: {i.get('msg')}"
     return None
 
 
